@@ -143,6 +143,8 @@ pub struct ScalarT {
 pub struct InputFieldDef {
     pub name: String,
     pub ty: TypeExpr,
+    /// default value as GraphQL literal text (`20`, `"x"`, `[[0, 10]]`); rendering only
+    pub default: Option<String>,
 }
 
 #[derive(Clone, Debug, PartialEq)]
@@ -288,6 +290,8 @@ pub struct SdlStyle {
     /// 0 = none; otherwise a seed: unrelated custom directives are put on some fields, before or
     /// after `@deprecated` (servers publish schemas with `@auth`, `@tag`, ... on fields)
     pub directive_noise: u64,
+    /// write `scalar Int`, `scalar ID`, ... explicitly (some schema dumps do)
+    pub declare_builtin_scalars: bool,
 }
 
 impl Default for SdlStyle {
@@ -303,6 +307,7 @@ impl Default for SdlStyle {
             indent_tabs: false,
             commas: false,
             directive_noise: 0,
+            declare_builtin_scalars: false,
         }
     }
 }
@@ -415,6 +420,11 @@ impl Schema {
         if st.directive_noise != 0 && st.directive_noise % 2 == 0 {
             defs.push((1, "directive @zzmeta(reason: String, level: Int) on FIELD_DEFINITION\ndirective @zztag(name: String) on FIELD_DEFINITION | OBJECT\n".to_string()));
         }
+        if st.declare_builtin_scalars {
+            for n in ["Int", "ID", "String", "Boolean", "Float"] {
+                defs.push((1, format!("scalar {}\n", n)));
+            }
+        }
         for sc in &self.scalars {
             defs.push((1, format!("scalar {}\n", sc.name)));
         }
@@ -493,7 +503,10 @@ impl Schema {
         for i in &self.inputs {
             let mut s = format!("input {}{} {{\n", i.name, if i.one_of { " @oneOf" } else { "" });
             for f in &i.fields {
-                s.push_str(&format!("  {}: {}\n", f.name, self.render_type_expr(&f.ty)));
+                match &f.default {
+                    Some(d) => s.push_str(&format!("  {}: {} = {}\n", f.name, self.render_type_expr(&f.ty), d)),
+                    None => s.push_str(&format!("  {}: {}\n", f.name, self.render_type_expr(&f.ty))),
+                }
             }
             s.push_str("}\n");
             defs.push((6, s));
@@ -662,7 +675,7 @@ impl Schema {
             let fields: Vec<Value> = i
                 .fields
                 .iter()
-                .map(|f| json!({"name": f.name, "description": null, "type": self.json_type_ref(&f.ty), "defaultValue": null}))
+                .map(|f| json!({"name": f.name, "description": null, "type": self.json_type_ref(&f.ty), "defaultValue": f.default}))
                 .collect();
             let mut t = json!({"kind":"INPUT_OBJECT","name":i.name,"description":null,"fields":null,"inputFields":fields,"interfaces":null,"enumValues":null,"possibleTypes":null});
             if st.include_is_one_of {
